@@ -103,6 +103,12 @@ func (f *File) Apply(filename string, src []byte) (_ []byte, err error) {
 		return nil, err
 	}
 
+	// What imports.Process returns went through the printer once more:
+	// it is checked like what was given to it.
+	if _, err := parser.ParseFile(token.NewFileSet(), filename, bs, parser.AllErrors); err != nil {
+		return nil, err
+	}
+
 	return bs, nil
 }
 
